@@ -102,13 +102,16 @@ def convert_sheets(sheets, fmt="dict", pretty=False, channel="auto", args=None, 
         return call_convert(raw, **kw)
     if channel == "bytesio":
         return call_convert(io.BytesIO(raw), file_type=ft, **kw)
+    if channel == "stringio":
+        # a text stream holding a text format (what a web framework or a test hands over for pasted text)
+        return call_convert(io.StringIO(raw.decode("utf-8")), file_type=ft, **kw)
     if channel == "spooled":
         import tempfile as _t
         with _t.SpooledTemporaryFile(max_size=1 << 20) as fh:  # what web upload handlers hand over
             fh.write(raw)
             fh.seek(0)
             return call_convert(fh, file_type=ft, **kw)
-    if channel in ("path", "file", "pathlike", "rawfile"):
+    if channel in ("path", "file", "pathlike", "rawfile", "textfile"):
         d = tempfile.mkdtemp(prefix="verif_c_")
         p = os.path.join(d, (args.get("_stem") or "stemname") + ft)
         kw.pop("_stem", None)
@@ -120,6 +123,9 @@ def convert_sheets(sheets, fmt="dict", pretty=False, channel="auto", args=None, 
             if channel == "pathlike":
                 import pathlib
                 return call_convert(pathlib.Path(p), **kw)
+            if channel == "textfile":
+                with open(p, encoding="utf-8", newline="") as fh:  # the same file opened in text mode
+                    return call_convert(fh, file_type=ft, **kw)
             if channel == "rawfile":
                 with open(p, "rb", buffering=0) as fh:  # an unbuffered FileIO: a binary stream that is not a BufferedIOBase
                     return call_convert(fh, file_type=ft, **kw)
